@@ -40,6 +40,8 @@ type worldCfg struct {
 	BlockingMethods map[string]string `json:"blocking_methods"`
 	// import path -> replacement, applied textually to the non-test files of the instrumented packages
 	ImportRewrite map[string]string `json:"import_rewrite"`
+	// wrap the Transport of every net/http.Client literal in simrt.HTTPTransport (simulated authority)
+	HTTPClientHook bool `json:"http_client_hook"`
 }
 
 const simrtPath = "github.com/bluenviron/mediamtx/internal/zzsim/simrt"
@@ -623,6 +625,30 @@ func (fi *fileInst) handle(n ast.Node) {
 
 	case *ast.CallExpr:
 		fi.call(x)
+
+	case *ast.CompositeLit:
+		if !fi.cfg.HTTPClientHook {
+			return
+		}
+		if t := fi.info.TypeOf(x); t == nil || !isNamed(t, "net/http", "Client") {
+			return
+		}
+		found := false
+		for _, el := range x.Elts {
+			kv, ok := el.(*ast.KeyValueExpr)
+			if !ok {
+				continue
+			}
+			if id, ok2 := kv.Key.(*ast.Ident); ok2 && id.Name == "Transport" {
+				fi.insert(kv.Value.Pos(), "zzsimrt.HTTPTransport(")
+				fi.insertAfter(kv.Value.End(), ")")
+				fi.nsites++
+				found = true
+			}
+		}
+		if !found {
+			fi.fail(x, "http.Client literal without Transport")
+		}
 	}
 }
 
